@@ -32,6 +32,10 @@ def main():
         for s in seeds:
             meta = json.load(open(os.path.join(VERIF, "seeded", s, "meta.json")))
             prop = meta["property"]
+            if "SUPERSEDED" in meta.get("ran", ""):
+                results[s] = "superseded (behaviour-preserving or inapplicable on the repaired code; see meta.json)"
+                print(s, "::", results[s], flush=True)
+                continue
             sh(["git", "-C", wt, "checkout", "--", "."])
             sh(["git", "-C", wt, "clean", "-fdq"])
             rc, out = sh(["git", "-C", wt, "apply", os.path.join(VERIF, "seeded", s, "patch.diff")])
@@ -50,8 +54,9 @@ def main():
     os.makedirs(os.path.join(VERIF, ".work"), exist_ok=True)
     json.dump(results, open(os.path.join(VERIF, ".work", "seedcheck.json"), "w"), indent=1)
     missed = [s for s, r in results.items() if r.startswith("MISSED")]
-    print("%d seeds, %d caught, %d missed, %d stale" % (len(results), sum(r.startswith("CAUGHT") for r in results.values()),
-                                                       len(missed), sum(r.startswith("patch") for r in results.values())))
+    print("%d seeds, %d caught, %d missed, %d stale, %d superseded" % (len(results), sum(r.startswith("CAUGHT") for r in results.values()),
+                                                       len(missed), sum(r.startswith("patch") for r in results.values()),
+                                                       sum(r.startswith("superseded") for r in results.values())))
     return 1 if missed else 0
 
 
